@@ -104,6 +104,7 @@ pub struct Sim {
     pub last_resp: Option<Response>,
     pub last_err: String,
     pub tx_snap: Option<(MockStorage, bool)>,
+    pub ttx_snap: Option<(MockStorage, bool)>,
     /// migration stream: 1 = 0.4.18 layout, 2 = 0.4.20, 3 = 1.0.0, 4 = current
     pub mlayout: u8,
     pub msnap_layout: u8,
@@ -234,6 +235,7 @@ impl Sim {
             last_resp: None,
             last_err: String::new(),
             tx_snap: None,
+            ttx_snap: None,
             mlayout: 0,
             msnap_layout: 0,
         }
@@ -874,14 +876,20 @@ impl Sim {
             "cfg" => {}
             "tx_begin" => {
                 self.tx_snap = Some((clone_storage(&self.deps.storage), self.inst));
+                self.ttx_snap = Some((clone_storage(&self.tdeps.storage), self.tinst));
             }
             "tx_commit" => {
                 self.tx_snap = None;
+                self.ttx_snap = None;
             }
             "tx_abort" => {
                 if let Some((s, i)) = self.tx_snap.take() {
                     self.deps.storage = s;
                     self.inst = i;
+                }
+                if let Some((s, i)) = self.ttx_snap.take() {
+                    self.tdeps.storage = s;
+                    self.tinst = i;
                 }
                 self.emit("tx_abort".to_string());
             }
